@@ -111,6 +111,11 @@ class PandasIndexFeaturesMixin:
         for name in reindexed.names:
             fill_method = methods.get(name, method)
 
+            # Nothing to adjust: keep the base class result (with the default
+            # fill value for the variable's dtype)
+            if fill_method is None and fill_values.get(name, fill_value) is None:
+                continue
+
             fill_limit = None
             fill_tolerance = None
 
